@@ -9,6 +9,8 @@ import (
 	"sort"
 	"strconv"
 	"strings"
+	"sync"
+	"sync/atomic"
 	"time"
 
 	"github.com/gookit/rux"
@@ -24,6 +26,11 @@ import (
 // Compared per `adv`: phase, committed status, body, Allow header and the handler trace of the request (obs) and
 // the keys of the route cache in recency order (internal) against the Lean model running the same schedule;
 // oracle: every request's final outcome against the same request served alone on an identical fresh router.
+//
+// The action `CP` keeps a Context.Copy() (what a handler hands to a goroutine that outlives the request). It is
+// not observable by the request itself, so the model skips it; oracle: from the moment its request has ended, the
+// copy holds exactly the data and params it held at that moment, whatever the requests served afterwards (which
+// get the pooled context back) do. How many copies really saw their context reused is reported as engine stats.
 //
 // Protocol: see lean/RuxModel/Drv/Conc.lean.
 type concEngine struct{}
@@ -43,7 +50,7 @@ func (concEngine) Budget(tier string) int {
 /**************** configuration parsed from the op lines ****************/
 
 type ccAct struct {
-	kind string // P E N A SP WP SD GD ST W
+	kind string // P E N A SP WP SD GD ST W CP
 	n    int
 	k, v string
 }
@@ -102,7 +109,7 @@ func ccParseActs(s string) []ccAct {
 	var out []ccAct
 	for _, t := range strings.Split(s, ",") {
 		switch {
-		case t == "P" || t == "N" || t == "A" || t == "SP":
+		case t == "P" || t == "N" || t == "A" || t == "SP" || t == "CP":
 			out = append(out, ccAct{kind: t})
 		case strings.HasPrefix(t, "WP:") || strings.HasPrefix(t, "SD:"):
 			p := strings.Split(t, ":")
@@ -226,6 +233,82 @@ type ccReqState struct {
 	crashed  string
 	rec      *ccRecorder
 	req      *http.Request
+	ctx      *rux.Context // the context the request ran on (pointer identity goes into the stats only)
+	kept     []*ccKept    // copies taken by `CP`
+	startT   int64        // scheduler ticks (stats only)
+	endT     int64
+}
+
+var ccTick int64
+
+// ccKept is a Context.Copy() kept beyond its request.
+type ccKept struct {
+	hid      int
+	from     *rux.Context
+	cp       *rux.Context
+	snap     string // data and params of the copy when its request ended
+	reported bool
+}
+
+// ccShowKept: data and params of a kept copy, read through the public API, canonical order.
+func ccShowKept(c *rux.Context) string {
+	data := map[string]string{}
+	for k, v := range c.Data() {
+		data[k] = encAny(v)
+	}
+	// Get/SafeGet must agree with Data()
+	for k, want := range data {
+		if v, ok := c.Get(k); !ok || encAny(v) != want {
+			data[k] = want + "!get"
+		}
+	}
+	return "d{" + encStrMap(data) + "}" + ccShowParams(c.Params)
+}
+
+// ended: the request is over (its context went back to the pool): from now on its copies must not change.
+func (rs *ccReqState) ended() {
+	for _, k := range rs.kept {
+		k.snap = ccShowKept(k.cp)
+	}
+}
+
+// keptChanged returns a description of every copy of a finished request that no longer holds what it held.
+func (rs *ccReqState) keptChanged() (out []string) {
+	if !rs.finished {
+		return nil
+	}
+	for _, k := range rs.kept {
+		if k.reported {
+			continue
+		}
+		if now := ccShowKept(k.cp); now != k.snap {
+			k.reported = true
+			out = append(out, fmt.Sprintf("the Copy() kept by handler %d of %s %s held %s when its request ended and holds %s now",
+				k.hid, rs.req.Method, rs.req.URL.Path, k.snap, now))
+		}
+	}
+	return
+}
+
+var concStats = struct {
+	sync.Mutex
+	m map[string]int
+}{m: map[string]int{}}
+
+func concStat(k string, n int) {
+	concStats.Lock()
+	concStats.m[k] += n
+	concStats.Unlock()
+}
+
+func (concEngine) Stats() map[string]int {
+	concStats.Lock()
+	defer concStats.Unlock()
+	out := map[string]int{}
+	for k, v := range concStats.m {
+		out[k] = v
+	}
+	return out
 }
 
 type ccRecorder struct {
@@ -270,8 +353,13 @@ func ccHandler(hid int, prog []ccAct) rux.HandlerFunc {
 			return
 		}
 		rs.trace = append(rs.trace, fmt.Sprintf("e%d", hid))
+		if rs.ctx == nil {
+			rs.ctx = c
+		}
 		for _, a := range prog {
 			switch a.kind {
+			case "CP":
+				rs.kept = append(rs.kept, &ccKept{hid: hid, from: c, cp: c.Copy()})
 			case "P":
 				if !rs.solo {
 					rs.parked <- struct{}{}
@@ -435,6 +523,7 @@ func (rs *ccReqState) adv(r *rux.Router) bool {
 	}
 	if !rs.started {
 		rs.started = true
+		rs.startT = atomic.AddInt64(&ccTick, 1)
 		go func() {
 			defer func() {
 				if v := recover(); v != nil {
@@ -455,6 +544,8 @@ func (rs *ccReqState) adv(r *rux.Router) bool {
 	case p := <-rs.done:
 		rs.finished = true
 		rs.crashed = p
+		rs.endT = atomic.AddInt64(&ccTick, 1)
+		rs.ended()
 	case <-wd.C:
 		return false
 	}
@@ -528,6 +619,15 @@ func (concEngine) Run(ops []string) (ans []string, oracle []string) {
 		hung = true
 		oracle = append(oracle, fmt.Sprintf("C03 hang: request %d (%s %s) did not reach a handler boundary or the end within %s; schedule so far: %s",
 			i, cfg.reqs[i].method, cfg.reqs[i].path, ccWatchdog, strings.Join(schedule, " ")))
+	}
+	// C03 for kept copies: evaluated after every scheduling step (only one request runs at a time, and it is
+	// parked or over when the scheduler looks)
+	checkKept := func() {
+		for i, rs := range reqs {
+			for _, msg := range rs.keptChanged() {
+				oracle = append(oracle, fmt.Sprintf("C03 kept copy: request %d: %s; schedule so far: %s", i, msg, strings.Join(schedule, " ")))
+			}
+		}
 	}
 	finishAll := func() {
 		for i, rs := range reqs {
@@ -620,10 +720,12 @@ func (concEngine) Run(ops []string) (ans []string, oracle []string) {
 					hang(i)
 					return "hang"
 				}
+				checkKept()
 				return reqs[i].show(reqs[i].phase()) + " ;; " + ccKeys(router().r)
 			case "end":
 				schedule = append(schedule, "end")
 				finishAll()
+				checkKept()
 				parts := make([]string, len(reqs))
 				for i, rs := range reqs {
 					parts[i] = rs.show(rs.phase())
@@ -641,6 +743,19 @@ func (concEngine) Run(ops []string) (ans []string, oracle []string) {
 	finishAll()
 	if hung {
 		return
+	}
+	checkKept()
+	// stats: how many kept copies saw the context they were taken from handed to a later request
+	for i, rs := range reqs {
+		for _, k := range rs.kept {
+			concStat("kept_copies", 1)
+			for j, other := range reqs {
+				if j != i && other.ctx == k.from && other.startT > rs.endT {
+					concStat("kept_copies_whose_context_was_reused", 1)
+					break
+				}
+			}
+		}
 	}
 	anyStarted := false
 	for _, rs := range reqs {
